@@ -10,6 +10,9 @@ KEEP = ("outline", "place", "where", "donor_paint", "copy_paint", "grp", "stack"
 DIMS = {k: scenes.DIMS[k] for k in KEEP}
 DIMS["tol"] = [0.1, 0.5, 0.01, 1e-9, 0]
 DIMS["fmt"] = ["glyf_colr_1", "glyf_colr_0", "picosvg"]
+# glyph names as a glyph map may give them: with dots of their own, one name a prefix of another (layer glyphs are named <glyph>.<n>)
+DIMS["names"] = ["default", "dotted"]
+DOTTED = ["wave.alt", "star", "wave"]
 K = {"quick": 2, "thorough": 2}
 # thorough: <= 2 deviations over all dimensions + every state with 3 deviations among the core dimensions (`--only 3` = full level 3)
 CORE3 = ("outline", "place", "where", "donor_paint", "copy_paint", "grp", "stack", "tol", "fmt", "twin", "vb_b", "grad_twice")
@@ -60,7 +63,7 @@ def execute(dev):
     fonts = {}
     for which, tol in (("reuse", a["tol"]), ("noreuse", -1)):
         try:
-            cfg, font, data = inproc.build_direct(texts, dict(over, reuse_tolerance=tol))
+            cfg, font, data = inproc.build_direct(texts, dict(over, reuse_tolerance=tol), names=None if a["names"] == "default" else DOTTED[:len(texts)])
         except Exception as e:
             import traceback
             # tolerance 0 fails in picosvg's normalisation whatever the scene and the format: one finding, one signature
@@ -184,7 +187,7 @@ def run(report, tier, only=None):
             from vmc.core.report import HarnessError
             raise HarnessError(f"vacuous: reuse never fired for {fmt}")
     report.rule = (
-        "E1 over outline x placement of the copy x where it lives x paints x group x tolerance x format, <= %d deviations; "
+        "E1 over outline x placement of the copy x where it lives x paints x group x tolerance x format x glyph names (default, or with dots and one a prefix of another), <= %d deviations; "
         "each state = two real builds (tolerance t and -1) compared leaf by leaf (count, order, placed outline within "
         "tolerance+quantisation, fill colour at interior probes) plus whole-picture equality; distinct = format, whether reuse fired, graph shape" % k
     )
